@@ -143,14 +143,18 @@ class SyncedList(SyncedCollection, MutableSequence):
                 # inserting at the beginning will require reconverting all
                 # elements of the data.
                 for i in range(min(len(self), len(data))):
-                    if data[i] == self._data[i]:
-                        continue
                     if _sc_resolver.get_type(self._data[i]) == "SYNCEDCOLLECTION":
                         try:
                             self._data[i]._update(data[i])
                             continue
                         except ValueError:
                             pass
+                    elif data[i] == self._data[i] and type(data[i]) is type(
+                        self._data[i]
+                    ):
+                        # Equal values of different types (True, 1 and 1.0)
+                        # are different JSON data and must be replaced.
+                        continue
                     if not _validate:
                         self._validate(data[i])
                     self._data[i] = self._from_base(data[i], parent=self)
